@@ -669,6 +669,17 @@ Lemma w_flags_pinned :
   /\ announces (dec_update no_opq s_v4 w_flags) = [].
 Proof. repeat split; vm_compute; reflexivity. Qed.
 
+(* known finding: AS_PATH ( 65001 ) followed by a segment of length zero (`02 00`) is malformed per RFC 7606 7.2;
+   both generations accept it and announce the route with the attribute as read *)
+Definition w_zero_seg : list Z :=
+  body_of [64;1;1;0; 64;2;8;2;1;0;0;253;233;2;0; 64;3;4;10;0;0;1] [24;10;1;2].
+Lemma w_zero_seg_accepted :
+  verdict (fun _ _ => false) (rs_of s_v4) w_zero_seg = [1;0; 2;1; 3;0]
+  /\ announces (dec_update no_opq s_v4 w_zero_seg) = [(mkN 1 1 None [] [] 24 [10;1;2], [10;0;0;1])]
+  /\ ahas (attrs_of (dec_update no_opq s_v4 w_zero_seg)) CODE_TREAT_AS_WITHDRAW = false
+  /\ aget (attrs_of (dec_update no_opq s_v4 w_zero_seg)) A_AS_PATH = Some (mkA 2 64 (VPath true [(2, [65001]); (2, [])])).
+Proof. repeat split; vm_compute; reflexivity. Qed.
+
 (* malformed AGGREGATOR (discard class): the pinned read_message drops the whole UPDATE *)
 Definition w_aggr : list Z := body_of (base_attrs ++ [192;7;3;1;2;3]) [24;10;1;2].
 Lemma w_aggr_rib :
